@@ -185,6 +185,14 @@ func races(w *rec.Writer, seed uint64, memRounds, sqlRounds int) {
 		}
 		sg.EmitRace(w, b, ballast, init, reqs, o, seed)
 		w.Stat("races_"+b.Name, 1)
+		if o.Reordered {
+			// not an atomicity failure (the entries are all there and the race is judged on them as
+			// a multiset), but a listed defect of the sqlite changelog order
+			w.Stat("race_sqlite_entry_sorted_before_older_entries", 1)
+			w.Known("sqlite_changelog_order_not_commit_order",
+				"an entry written by a request that started after an earlier write had completed sorts (by ULID) before that write's entry",
+				sg.RaceDesc{Kind: "race", Backend: b.Name, Ballast: ballast, Init: init, Reqs: reqs, Seed: seed})
+		}
 		w.Stat(fmt.Sprintf("race_width_%d", k), 1)
 		for _, e := range o.Errs {
 			w.Stat(fmt.Sprintf("race_%s_err_class_%d", b.Name, e), 1)
